@@ -67,7 +67,7 @@ Close(d, gs) ==
   IF gs.open.k = 0 THEN gs
   ELSE LET cmdk == IF d.named[gs.open.k].head.kind = "cmd" THEN gs.open.k ELSE 0 IN
        IF Complete(d, gs)
-       THEN [gs EXCEPT !.blocks[gs.open.k] = Append(@, [filled |-> gs.open.filled, words |-> gs.open.words]),
+       THEN [gs EXCEPT !.blocks[gs.open.k] = Append(@, [filled |-> gs.open.filled, words |-> gs.open.words, p |-> gs.open.p]),
                        !.open = NoOpen,
                        !.cut = IF @ = 0 /\ BlockBad(d, gs) THEN cmdk ELSE @]
        ELSE [GKill(gs, "block_cut") EXCEPT !.open = NoOpen, !.cut = IF @ = 0 THEN cmdk ELSE @]
@@ -144,7 +144,9 @@ GStep(d, gs0, e) ==
   LET r == GStep0(d, gs0, e)
       joined == /\ gs0.open.k # 0 /\ r.open.k = 0 /\ Len(r.blocks[gs0.open.k]) = Len(gs0.blocks[gs0.open.k]) + 1
                 /\ r.acc = gs0.acc /\ r.pos = gs0.pos /\ r.dead = gs0.dead /\ r.posOnly = gs0.posOnly /\ r.help = gs0.help
-      k == IF r.open.k # 0 THEN r.open.k ELSE IF joined THEN gs0.open.k ELSE 0
+      \* a block that this very item opened and completed (a command without items of its own)
+      fresh == {j \in DOMAIN r.blocks : Len(r.blocks[j]) = Len(gs0.blocks[j]) + 1 /\ r.blocks[j][Len(r.blocks[j])].p = r.n}
+      k == IF r.open.k # 0 THEN r.open.k ELSE IF fresh # {} THEN CHOOSE j \in fresh : TRUE ELSE IF joined THEN gs0.open.k ELSE 0
       kc == IF k # 0 /\ d.named[k].head.kind = "cmd" THEN k ELSE 0
       \* an argument name still waiting for its value is not part of the block: the block ends in front of it
       was0 == IF gs0.pending # "" THEN 0 ELSE IF gs0.open.k # 0 THEN gs0.open.k ELSE gs0.recent
@@ -293,6 +295,18 @@ AdjVal(g, B) ==
                             ELSE [ok |-> FALSE, why |-> [k |-> "toomany", id |-> g.id]]
       [] g.arity = "many" -> [ok |-> TRUE, v |-> vs]
 
+\* adjacent subcommands that are the alternatives of one repeated choice (`construct!([build, test, clean]).many()`):
+\* one value per block, in command-line order of the blocks, tagged with the command it belongs to
+IsJoined(f) == f.kind = "adj" /\ "joined" \in DOMAIN f /\ f.joined # ""
+JoinedSet(d, k) == {j \in DOMAIN d.named : IsJoined(d.named[j]) /\ d.named[j].joined = d.named[k].joined}
+JoinedVal(d, gs, k) ==
+  LET J == JoinedSet(d, k)
+      all == UNION {{<<j, i>> : i \in DOMAIN gs.blocks[j]} : j \in J}
+      BV(pr) == BlockVal(d.named[pr[1]], gs.blocks[pr[1]][pr[2]])
+      sorted == SetToSortSeq(all, LAMBDA a, b : gs.blocks[a[1]][a[2]].p < gs.blocks[b[1]][b[2]].p) IN
+  IF \E pr \in all : ~BV(pr).ok THEN [ok |-> FALSE, why |-> [k |-> "conv"]]
+  ELSE [ok |-> TRUE, v |-> [n \in DOMAIN sorted |-> [v |-> Cardinality({x \in J : x < sorted[n][1]}), x |-> BV(sorted[n]).v]]]
+
 GFinish(d, gs0, envv) ==
   LET gs == Close(d, gs0) IN
   IF gs.dead # "" THEN [class |-> "stderr", why |-> [k |-> gs.dead]]
@@ -303,12 +317,16 @@ GFinish(d, gs0, envv) ==
                  LET f == d.named[k] IN
                  IF IsLeaf(f) THEN NamedVal(plain, f, envv)
                  ELSE IF f.kind = "alt" THEN AltVal(f, gs.acc, envv, gs.pos)
+                 ELSE IF IsJoined(f) THEN JoinedVal(d, gs, k)
                  ELSE AdjVal(f, gs.blocks[k])]
         bad == {k \in DOMAIN fv : ~fv[k].ok}
+        \* a joined group is one field: its value sits where its first command is declared
+        Shown == {k \in DOMAIN fv : ~IsJoined(d.named[k]) \/ k = MinOf(JoinedSet(d, k))}
         \* words a positional branch of a choice took are gone (at most one choice of a level has such a branch)
         PA == {k \in DOMAIN d.named : HasPosBranch(d.named[k])} IN
     IF bad # {} THEN [class |-> "stderr", why |-> fv[MinOf(bad)].why]
-    ELSE LET base == [k \in DOMAIN fv |-> fv[k].v]
+    ELSE LET shown == SetToSortSeq(Shown, LAMBDA a, b : a < b)
+             base == [n \in DOMAIN shown |-> fv[shown[n]].v]
              rest == IF PA = {} THEN gs.pos ELSE fv[MinOf(PA)].pool IN
       IF d.tail.kind = "pos"
       THEN LET r == AssignPos(d.tail.items, rest, <<>>) IN
